@@ -95,7 +95,19 @@ Definition step (w : world) (o : op) : world * list (list Z) :=
                   | _ => put_swaps_user_buf api (need_convert (w_fmt w) xt memk) (need_swap xt memk)
                                             contig has_imap (w_hint w) nbytes
                   end in
-      let '(st', id, rc) := match f with
+      (* dispatcher: check_start_count_stride of a read against the CURRENT number of records *)
+      let chk := fun s c t => check_scs (w_fmt w) false (g_isrec g) true API_VARS (g_shape g)
+                                        (st_numrecs (rs_nb rs)) (Some s) (Some c) t in
+      let argerr := match k, g_shape g with
+                    | KIget, _ :: _ =>
+                        match f with
+                        | FVarm s c t => chk s c t
+                        | FVarn parts => first_err (map (fun p => chk (fst p) (part_count (fst p) (snd p)) None) parts)
+                        end
+                    | _, _ => NC_NOERR
+                    end in
+      let '(st', id, rc) := if negb (argerr =? NC_NOERR) then (rs_nb rs, NC_REQ_NULL, argerr) else
+                            match f with
                             | FVarm s c t => post_varm (rs_nb rs) k g s c t xaddr data flag slot
                             | FVarn parts => post_varn (rs_nb rs) k g parts xaddr data flag slot
                             end in
